@@ -126,12 +126,17 @@ SpellingIgnored == vPh # "done" => /\ Process(vSt, "SCALAR_int:=6") = Process(vS
                                   /\ Process(vSt, "  !Vec__KEY [3]:=13") = Process(vSt, "vec key[3] := 13")
                                   /\ Process(vSt, "!END__test  := ") = Process(vSt, "End Test :=")
                                   /\ Process(vSt, "enum key := BETA_gamma") = Process(vSt, "enum key := beta gamma")
+                                  /\ Process(vSt, "scalar\tint\t:=\t6") = Process(vSt, "scalar int := 6")
+                                  /\ Process(vSt, "VEC \t\fkey [ 3\t] := 13") = Process(vSt, "vec key[3] := 13")
+                                  /\ Process(vSt, "enum key := Beta\t\r_gamma") = Process(vSt, "enum key := beta gamma")
 \* parsing never starts without the start key, and an error or the stop key ends it
 StartRequired == vPh = "loop" => \E k \in 1..Len(vHist) : LineTab[0][vHist[k]].info.proc = "start"
 ErrorIsFinal == vSt.err # NoErr => vPh = "done" /\ vRes = "error"
 Bounded == \A v \in {"vec", "vlist"} : Len(vSt.vars[v]) = Len(TestVars[v])     \* a parser never resizes a vectorised variable
 ASSUME /\ Standardise("  start_TEST") = "start test" /\ Standardise("!END__test  ") = "end test"
        /\ Standardise("a \t_!b") = "a b" /\ Standardise(" _!\t") = ""
+       /\ Standardise("a\tb") = "a b" /\ Standardise("a\fb") = "a b" /\ Standardise("a\r\t b") = "a b" /\ Standardise("\tA\tb\t") = "a b"
+       /\ Standardise("a b\f") = "a b "      \* only space, tab, '_', '!' are trimmed at the ends
        /\ \A a \in AlphaIds : Standardise(Standardise(GetKeyword(Alpha[a]))) = Standardise(GetKeyword(Alpha[a]))
        /\ GetKeyword("a:b := 1") = "a:b " /\ GetKeyword("k[1] := 2") = "k" /\ GetIndex("k[ 12 ] := 2").n = 12
        /\ GetIndex("k[4294967297] := 2").big /\ GetIndex("k := v[3]") = NoIndex
